@@ -15,7 +15,7 @@ import subprocess
 import sys
 
 REPO = "/repo"
-VERIF = "/verif"
+VERIF = os.environ.get("VERIF_DIR", "/verif")
 
 
 def sh(cmd, **kw):
